@@ -19,6 +19,7 @@ DOC = {
         'C08.R5': 'run_dedupe: no_check_size |= transform.is_some(); match_links |= header; rf_over defaulted only when None; isolated_roots defaulted only when empty and the header had --isolate; get_command_config re-bases on header.base_dir',
         'C08.R6': 'for every explicitly typed value_parser: <P as TypedValueParser>::Value == the T of remove_one::<T>/remove_many::<T> for the same argument id',
         'C08.R7': 'GroupConfig::rf_over() does not depend on `transform`',
+        'C08.R10': 'the path patterns of the dedupe commands (--path, --keep-path) are matched against the absolute reported paths, so - like the path patterns of group (PathSelector::include_paths / exclude_paths) - they pass abs_pattern (anchoring of relative patterns at the working directory) on every path to dedupe(); sibling agreement between the two commands',
         'C08.R9': 'the isolate roots that reach partition - inherited from the header or given on the dedupe command line - are in the canonical form of the reported paths (re-evaluates C06.R6)',
         'C08.R8': 'the top-up to n counts retained sub-groups (re-evaluates C02.R1)',
     },
@@ -36,6 +37,7 @@ def run(ctx):
     from .common import reevaluate
     from . import c06
     reevaluate(ctx, 'C08.R9', c06.r6)
+    r10(ctx)
     r4(ctx)
     r5(ctx)
     r6(ctx)
@@ -453,3 +455,52 @@ def r8(ctx):
         o['detail'] = '[%s] %s' % (o['rule'], o['detail'])
         o['rule'] = 'C08.R8'
     ctx.rules_run.add('C08.R8')
+
+
+def r10(ctx):
+    rule = 'C08.R10'
+    lib, bn = ctx.lib, ctx.bin
+    rd = bn.body('run_dedupe') if bn else None
+    if rd is None:
+        ctx.missing(rule, 'fn run_dedupe (binary)')
+        return
+    # the sibling: group anchors its path patterns
+    sib = [lib.body(p) for p in ('selector::PathSelector::include_paths', 'selector::PathSelector::exclude_paths')]
+    sib_ok = all(b is not None and any(cb.calls(r'PathSelector::abs_pattern$') for cb in [b] + [lib.body(c) for c in lib.closures_of(b.path)]) for b in sib)
+    if not sib_ok:
+        ctx.note(rule, '', 'group no longer anchors its path patterns with abs_pattern; nothing to agree with')
+        return
+    consumers = [c for c in rd.calls(r'(^|::)dedupe$|dedupe::dedupe$') if c.args]
+    if not consumers:
+        ctx.missing(rule, 'call of dedupe() in run_dedupe', rd.where())
+        return
+    # a call on the config that anchors both lists, dominating dedupe()
+    anchored = set()
+    site = consumers[0].where()
+    for c in rd.calls():
+        if not rd.dominates(c.bb, consumers[0].bb):
+            continue
+        canon = c.f.get('canon')
+        cb = None
+        if canon:
+            for lb in lib.bodies.values():
+                if lb.raw.get('canon') == canon:
+                    cb = lb
+        if cb is None:
+            continue
+        bodies = [cb] + [lib.body(x) for x in lib.closures_of(cb.path)]
+        if not any(x.calls(r'PathSelector::abs_pattern$') for x in bodies):
+            continue
+        for x in bodies:
+            for blk in x.blocks:
+                for st in blk['stmts']:
+                    for pl in [st['rv'].get('p')] + [o.get('m') or o.get('c') for o in (st['rv'].get('ops') or []) if isinstance(o, dict)]:
+                        if pl:
+                            for f in ('path_patterns', 'keep_path_patterns'):
+                                if f in [e[2] for e in pl[1] if isinstance(e, list) and e[0] == 'F']:
+                                    anchored.add(f)
+                                    site = c.where()
+    want = {'path_patterns', 'keep_path_patterns'}
+    ctx.check(anchored >= want, rule, 'bin::run_dedupe|path-patterns-anchored', site, 'path_patterns and keep_path_patterns are anchored with abs_pattern before dedupe()',
+              'the dedupe commands match %s verbatim against the absolute reported paths, while group anchors relative path patterns at the working directory: `remove --keep-path "d2/**"` '
+              'protects nothing (d2/c is removed), `--path "d1/**"` removes nothing' % sorted(want - anchored))
